@@ -505,6 +505,17 @@ pub(crate) fn load_defs(ctx: &mut Context, defs: Defs) -> Vec<String> {
                                 ))
                             }
                         };
+                        let zero = Numeric::zero();
+                        if input.value == zero
+                            || input.value == Numeric::Float(0.0)
+                            || output.value == zero
+                            || output.value == Numeric::Float(0.0)
+                        {
+                            return Err(format!(
+                                "Property {} of {} must not be zero",
+                                prop.name, name
+                            ));
+                        }
                         let mut unique = BTreeSet::new();
                         unique.insert(&*prop.name);
                         unique.insert(&*prop.input_name);
